@@ -151,6 +151,9 @@ func Explore(r *ev.Run, cfg Config) Result {
 	if cfg.Workers > 0 {
 		workers = cfg.Workers
 	}
+	if ev.Single() {
+		workers = 1
+	}
 	var res Result
 	res.Exhaustive = true
 	seen := map[[16]byte]struct{}{}
@@ -224,6 +227,9 @@ func Explore(r *ev.Run, cfg Config) Result {
 						sl.mu.Lock()
 						sl.since, sl.path, sl.busy = time.Now(), full, true
 						sl.mu.Unlock()
+						if ev.Tracing() {
+							ev.Trace(map[string]any{"config": cfg.Name, "ops": full})
+						}
 						s := cfg.New()
 						for _, p := range path {
 							s.Apply(p)
